@@ -1231,6 +1231,23 @@ def _force_top(sc, bits, pos, rng):
     return pos
 
 
+NOBACKEND_WIDTH_SRC = r'''
+_rt.bitlength = _cfg["bitlength"]
+for _v in %(vals)s:
+    try:
+        _x = PrivVal(_v)
+        if "%(op)s" == "to_bits":
+            _bits = _x.to_bits(%(n)d)
+            _side({"ev": "width", "v": _v, "ok": True, "bits": [b.lc.value if hasattr(b, "lc") else b.value for b in _bits],
+                   "back": getattr(LinComb.from_bits(_bits), "value", LinComb.from_bits(_bits))})
+        else:
+            _x.assert_positive(%(n)d)
+            _side({"ev": "width", "v": _v, "ok": True})
+    except AssertionError as _e:
+        _side({"ev": "width", "v": _v, "ok": False, "err": "AssertionError: " + str(_e)[:80]})
+'''
+
+
 class C16(ProverCheck):
     name = "C16"
     prop = "C16"
@@ -1466,6 +1483,28 @@ class C16(ProverCheck):
                         "circuit" % (v, n, bl, found[0]))
             verdicts.append((v, "out", ok))
             ntl.append(v)
+        r3 = _random.Random("nobackend/%s" % case["seed"])
+        if r3.random() < 0.15:
+            # the same calls in a fresh interpreter under the backend without a proof system (the one the runtime also
+            # picks by itself in a notebook; its "modulus" is 10000): accept/reject and the recomposed value are the same
+            vals = [vec[0] for vec in case["vectors"]] + [9999, 10000, 10001, 12345]
+            src = NOBACKEND_WIDTH_SRC % {"vals": repr(vals), "n": n, "op": op}
+            r = X.run_child(src, {"inputs": [], "autoprove": False, "bitlength": bl}, X.child_env("nobackend"))
+            faults["config:nobackend"] = 1
+            got = [e for e in r["events"] if e.get("ev") == "width"]
+            if r["rc"] == "timeout" or len(got) != len(vals):
+                raise W.HarnessError("nobackend child did not finish: %r %s" % (r["rc"], r["stderr"][-300:]))
+            for e in got:
+                v = e["v"]
+                if 0 <= v < (1 << n):
+                    if not e["ok"]:
+                        add("in_range_rejected", "nobackend", "value %d is a %d-bit value but %s" % (v, n, e["err"]))
+                    elif op == "to_bits" and (e["back"] != v or e["bits"] != [(v >> i) & 1 for i in range(n)]):
+                        add("roundtrip_differs", "nobackend", "to_bits(%d, %d) gives bits %r, recomposed %r" % (
+                            v, n, e["bits"], e["back"]))
+                elif e["ok"]:
+                    add("out_of_range_accepted", "nobackend", "value %d is not a %d-bit value but the call returned" % (v, n))
+            events += len(got)
         return {"violations": viol, "digest": E.sha((verdicts, [x["detail"] for x in viol])), "nontrivial": None,
                 "nontrivial_list": [E.sha((op, n, bl, v)) for v in ntl], "events": events + faults.get("lie-wire", 0),
                 "faults": faults, "probes": probes, "sigs": [E.sha((op, n, bl))], "outcome": verdicts[:3]}
